@@ -93,3 +93,30 @@ def okRelint (l : Location) (rs re : Int) (rst : Strand) (ans : Option Location)
         strandOk && wfLocation m && basesOk && normalOk
 
 end BioCantor.Spec
+
+namespace BioCantor.Spec
+open BioCantor
+
+/-- C01, relative-location form: `a.location_relative_to(b)` (= `b.parent_to_relative_location(a)`).
+    For non-self-overlapping operands and directional `b` the answer covers exactly the relative
+    positions (within `b`) of the parent positions covered by both, has `a`'s strand relative to `b`'s,
+    is well formed, and is normalised when `optimize_blocks`; operands sharing no position are refused. -/
+def okLocRel (a b : Location) (opt : Bool) (ans : Option Location) : Bool :=
+  if a == .empty ∨ b == .empty then ans == some .empty
+  else
+    let common := (locationBases a).filter (fun p => locationCovers b p)
+    if common.isEmpty then ans.isNone
+    else if strandOf? b == some .unstranded then true        -- no direction to measure along: refusal accepted
+    else if ¬ (nonOverlap (locationBlocks a) && nonOverlap (locationBlocks b)) then
+      match ans with | some m => wfLocation m | none => true
+    else match ans with
+      | none => false
+      | some m =>
+        let want := common.filterMap (fun p => idxOf? p (locationBases b))
+        let strandOk := locationStrand? m == (do let sa ← locationStrand? a; let sb ← locationStrand? b; pure (compose sa sb))
+        strandOk && wfLocation m && m != .empty &&
+        sortNat ((locationBlocks m).flatMap blkAsc) == sortNat want &&
+        (!opt || normalBlocks (locationBlocks m))
+where strandOf? (l : Location) : Option Strand := locationStrand? l
+
+end BioCantor.Spec
